@@ -697,6 +697,15 @@ class C09(Property):
             ctrs["sparse_masters"] = 1
             if ".notdef" not in osets[si]:
                 add("sparse-missing-notdef", {})
+            elif ".notdef" not in layer and setup["entry"].endswith("_ds") and ".notdef" in g:
+                # the stand-in must not clash with the masters' own '.notdef': an empty glyph (what
+                # ufo2ft uses) or the same structure
+                sn = struct_of(fonts[si], ".notdef")
+                others = [struct_of(fonts[k], ".notdef") for k, m_ in enumerate(mids)
+                          if m_ != "S" and ".notdef" in osets[k]]
+                ctrs["sparse_notdef_standins"] = ctrs.get("sparse_notdef_standins", 0) + 1
+                if sn != ["empty"] and others and sn != others[0]:
+                    add("sparse-notdef-incompatible", {}, observed=sn, masters=others[0])
             want = (layer - skip)
             missing = sorted(want - osets[si])
             if missing:
